@@ -62,7 +62,7 @@ _FACTS = None
 def header_of_get(node):
     """Header identity of a HeaderMap::get(..) call in the provenance of node."""
     for x in walk(node):
-        if x.kind == "call" and x[6] == "get" and "HeaderMap" in x[1] and len(x[3]) > 1:
+        if x.kind == "call" and x[6] in ("get", "remove") and "HeaderMap" in x[1] and len(x[3]) > 1:
             k = strip(x[3][1])
             if k.kind == "constx":
                 if k[3] and _FACTS is not None and k[3] in _FACTS.by_dp:
@@ -309,6 +309,22 @@ def check(facts, rep, tier, cfg):
             r = strip(tr.operand(t["args"][1]))
             if not (r.kind == "field" and strip(r[1]).kind == "param"):
                 rep.bad("C14.R2", "fallback-request", "%s (%s)" % (loc_str(t["loc"]), b.path), "the fallback is not given the original request")
+    # the request handed to the fallback is unmodified: nothing on a path to the fallback changed its headers / uri / method /
+    # version / body (the same request on an unknown path reaches the backend as it arrived)
+    MUT = ("headers_mut", "uri_mut", "method_mut", "version_mut", "body_mut")
+    fbs = [bi for bi, t in b.calls() if callee(t) and callee(t)["name"] == "backend_or_404_handler"]
+    nmut = 0
+    for bi, t in b.calls():
+        c = callee(t)
+        if c and c["name"] in MUT and "Request" in (c["path"] + c["def"]):
+            reach = b.reachable_from(bi)
+            if any(f in reach for f in fbs):
+                nmut += 1
+                rep.bad("C14.R2", "fallback-request-unmodified/%s" % c["name"], "%s (%s)" % (loc_str(t["loc"]), b.path),
+                        "the request is modified (`%s`) on a path that hands it to the backend-or-404 handler: a rejected /ws request no longer "
+                        "reaches the backend as it arrived, so its answer can differ from the same request on an unknown path" % c["name"])
+    if fbs and not nmut:
+        rep.ok("C14.R2", "fallback-request-unmodified", where, "no headers_mut / uri_mut / method_mut / version_mut / body_mut before any of the %d fallback calls" % len(fbs))
     # ---- R4
     rep.rule("C14.R4", "101 response: status, Connection/Upgrade/Sec-WebSocket-Protocol constants, accept hash of the request key")
     hdrs = {}
